@@ -44,6 +44,7 @@ CONSTANTS
     Topos,           \* set of topology records (see PipelineMC)
     StopKinds,       \* subset of {"task", "close"}
     AllowFail,       \* BOOLEAN: one node may return an error at any time
+    MaxN, MaxE,      \* array sizes (>= nodes / edges of every topology)
     InfluxStopF, ReaderDone, AlertCloseOnErr, HookNeedsTmLock
 
 VARIABLES
@@ -76,6 +77,7 @@ EIdx == 1..Len(topo.edges)
 InE(n) == {e \in EIdx : topo.edges[e].to = n}
 OutSeq(n) == SelectSeq([i \in EIdx |-> i], LAMBDA i : topo.edges[i].from = n)
 TheIn(n) == CHOOSE e \in InE(n) : TRUE
+\* "none": an output that is not judged point by point (join drops unmatched points by design)
 Pass(f, p) == f = "all" \/ (f = "odd" /\ p % 2 = 1) \/ (f = "even" /\ p % 2 = 0)
 
 \* first index j' >= j of OutSeq(n) whose filter lets m through, Len+1 if none
@@ -84,8 +86,6 @@ NextOut(n, m, j) ==
         ok == {i \in j..Len(os) : Pass(topo.edges[os[i]].f, m)}
     IN IF ok = {} THEN Len(os) + 1 ELSE CHOOSE i \in ok : \A i2 \in ok : i <= i2
 
-MaxN == 3
-MaxE == 4
 NoWb == [at |-> "none", buf |-> <<>>, stopping |-> FALSE]
 NoHq == [q |-> <<>>, closed |-> FALSE, at |-> "none"]
 NoRd == [at |-> "none", m |-> 0]
